@@ -74,6 +74,7 @@ package goat
 //@     | ncalls("go:(*github.com/avos-io/goat.handler).runStream") == old(ncalls("go:(*github.com/avos-io/goat.handler).runStream"))
 //@   ensures[C12.reset_for_unknown_body] !atlock(rpc.Id in h.streams) && !(rpc.Reset_ != nil && rpc.Reset_.Type == "RST_STREAM") && rpc.Body != nil ==>
 //@     | ncalls("call:goat.(*handler).resetStream") == old(ncalls("call:goat.(*handler).resetStream")) + 1
+//@   ensures[C02.every_message_handed_over C05.every_message_handed_over] atlock(rpc.Id in h.streams) && !(rpc.Reset_ != nil && rpc.Reset_.Type == "RST_STREAM") && result == nil ==> ncalls("send") == old(ncalls("send")) + 1
 //@   ensures[C07.reset_cancels_handler] atlock(rpc.Id in h.streams) && (rpc.Reset_ != nil && rpc.Reset_.Type == "RST_STREAM") ==> done(cancels(atlock(h.streams[rpc.Id].cancel)))
 //@   ensures[C10.registered_only_with_its_goroutine C12.registered_only_with_its_goroutine C14.registered_only_with_its_goroutine] rpc.Id in h.streams && !atlock(rpc.Id in h.streams) ==>
 //@     | ncalls("go:(*github.com/avos-io/goat.handler).runStream") == old(ncalls("go:(*github.com/avos-io/goat.handler).runStream")) + 1
@@ -139,6 +140,7 @@ package goat
 // reader closure of a server stream: only this stream's queue, or the stream context's error
 //@ func goat.(*handler).runStream$1
 //@   nopanic[C12.nopanic]
+//@   ctxaware[C07.handler_receive_wakes_on_stream_ctx C14.handler_receive_wakes_on_stream_ctx C10.handler_receive_wakes_on_stream_ctx] ctx
 //@   requires ctx != nil
 //@   captures[C05.own_queue] handler.ch != nil && isclass(handler.ch, "goat.streams.ch")
 //@   ensures[C02.reader_result_wellformed C12.reader_result_wellformed] (result.1 == nil) != (result.0 == nil)
@@ -147,6 +149,7 @@ package goat
 // writer closure of a server stream: hands the envelope to the connection's writer, unchanged
 //@ func goat.(*handler).runStream$2
 //@   nopanic[C12.nopanic]
+//@   ctxaware[C07.handler_send_wakes_on_stream_ctx C10.handler_send_wakes_on_stream_ctx C11.handler_send_wakes_on_stream_ctx] ctx
 //@   requires ctx != nil
 //@   atcall[C02.write_unchanged C06.write_unchanged] send : arg1 == r
 //@   ensures[C06.one_envelope_per_write C02.one_envelope_per_write] result == nil ==> ncalls("send") == old(ncalls("send")) + 1
@@ -288,7 +291,7 @@ package goat
 
 //@ func goat.NewGoatOverChannel$1
 //@   nopanic[C18.nopanic C19.nopanic]
-//@   ctxaware[C19.read_returns_on_ctx]
+//@   ctxaware[C19.read_returns_on_ctx] ctx
 //@   requires ctx != nil
 //@   ensures[C18.read_result_wellformed C19.read_result_wellformed] result.1 != nil ==> result.0 == nil
 //@   ensures[C19.closed_is_error C18.closed_is_error] bound("ok") && !ok ==> result.1 != nil
@@ -296,7 +299,7 @@ package goat
 //@ func goat.NewGoatOverChannel$2
 //@   nopanic[C18.nopanic C19.nopanic]
 //@   captures isclass(outQ, "none")
-//@   ctxaware[C19.write_returns_on_ctx]
+//@   ctxaware[C19.write_returns_on_ctx] ctx
 //@   requires ctx != nil
 //@   atcall[C19.write_hands_over_same_envelope C18.write_hands_over_same_envelope] send : arg1 == rpc
 //@   ensures[C19.write_once] result == nil ==> ncalls("send") == old(ncalls("send")) + 1
@@ -350,11 +353,13 @@ package goat
 //@   requires w != nil && r != nil
 //@   ensures[C19.http_deliver_at_most_once] ncalls("send") <= old(ncalls("send")) + 1
 //@   ensures[C19.http_rejected_is_not_delivered] ncalls("net/http.Error") > old(ncalls("net/http.Error")) ==> ncalls("send") == old(ncalls("send"))
+//@   atcall[C19.http_reads_the_whole_body] io.ReadAll : arg0 == r.Body
+//@   atcall[C19.http_decodes_what_was_read] google.golang.org/protobuf/proto.Unmarshal : arg0 == data
 //@   atcall[C19.http_delivers_decoded_envelope_with_source] send : arg1 == rpc && rpc.Header != nil && rpc.Header.Source != "" && bound("conn") && arg0 == conn.readCh
 
 //@ func goat.(*httpReadWriter).Read
 //@   nopanic[C19.nopanic]
-//@   ctxaware[C19.read_returns_on_ctx]
+//@   ctxaware[C19.read_returns_on_ctx] ctx
 //@   requires ctx != nil
 //@   ensures[C19.http_read_wellformed] (result.1 == nil) != (result.0 == nil) || (result.1 == nil && result.0 == nil)
 //@   ensures[C19.closed_is_error] bound("ok") && !ok ==> result.1 != nil
